@@ -81,6 +81,19 @@ func (m *misuse) finishedTx(tx *txfile.Tx, pages []*txfile.Page, state string, r
 	}
 }
 
+// refetchFreed: Tx.Page of a page freed in this transaction either fails or
+// returns a handle that rejects every modification.
+func (m *misuse) refetchFreed(tx *txfile.Tx, id PageID, ps int, op []error) {
+	h2, err := tx.Page(id)
+	if err != nil || h2 == nil {
+		return
+	}
+	m.e.Probe("cell_refetched_freed_page")
+	m.cell(fmt.Sprintf("Page.SetBytes through a handle fetched again for freed page %d", id), op, func() error { return h2.SetBytes(make([]byte, ps)) })
+	m.cell(fmt.Sprintf("Page.MarkDirty through a handle fetched again for freed page %d", id), op, func() error { return h2.MarkDirty() })
+	m.cell(fmt.Sprintf("Page.Free through a handle fetched again for freed page %d", id), op, func() error { return h2.Free() })
+}
+
 // activeWritable runs misuse cells inside the runner's active write transaction.
 func (m *misuse) activeWritable(r *Runner) {
 	tx := r.tx
@@ -99,6 +112,7 @@ func (m *misuse) activeWritable(r *Runner) {
 	}
 	sortIDs(ids)
 	var seenFreed, seenDirty, seenFlushed, seenEmpty, seenOversize bool
+	nFreed := 0
 	for _, id := range ids {
 		p := r.txPages[id]
 		switch {
@@ -113,7 +127,13 @@ func (m *misuse) activeWritable(r *Runner) {
 			m.cell(fmt.Sprintf("Page.MarkDirty on freed page %d", id), op, func() error { return p.h.MarkDirty() })
 			m.cell(fmt.Sprintf("Page.Free on freed page %d", id), op, func() error { return p.h.Free() })
 			m.cell(fmt.Sprintf("Page.Flush on freed page %d", id), op, func() error { return p.h.Flush() })
+			m.refetchFreed(tx, id, ps, op)
 		case p.freed:
+			// fetching the page again (also after a Tx.Flush in between) must not
+			// bring a freed page back to life
+			if nFreed++; nFreed <= 4 {
+				m.refetchFreed(tx, id, ps, op)
+			}
 		case p.flushed && !seenFlushed:
 			seenFlushed = true
 			m.cell(fmt.Sprintf("Page.SetBytes on flushed page %d", id), op, func() error { return p.h.SetBytes(make([]byte, ps)) })
@@ -204,7 +224,7 @@ func (m *misuse) readonlyTx(r *Runner) {
 }
 
 func init() {
-	probeNames["C15"] = []string{"cells", "cell_freed_page", "cell_flushed_page", "cell_dirty_page", "cell_new_empty_page", "cell_readonly_tx", "state_commit-ok", "state_commit-failed", "state_rollback", "state_closetx", "queue_cells"}
+	probeNames["C15"] = []string{"cells", "cell_freed_page", "cell_refetched_freed_page", "cell_flushed_page", "cell_dirty_page", "cell_new_empty_page", "cell_readonly_tx", "state_commit-ok", "state_commit-failed", "state_rollback", "state_closetx", "queue_cells"}
 	register(&PropDef{
 		ID: "C15", Level: "exploration", QuickSec: 50, ThoroSec: 900,
 		Rule: "each run = one seeded txops history with misuse cells injected at seeded points, followed by a queue history with queue misuse cells. Transaction matrix (exhaustive per injection point): every error-returning method of Tx (RootPage, Page, Alloc, AllocN, Flush, CheckpointWAL, Commit, Rollback, Close) and Page (Bytes, Load, SetBytes, MarkDirty, Free, Flush) x receiver state {active read-only, active writable, committed, rolled back, closed, commit failed from out-of-space} x page state {freed, flushed, dirty, new-empty, id<2, id at/beyond end marker, oversize contents}; queue matrix: Reader.Next/Read/Available without Begin, Begin twice, Reader/Writer methods and ACK after Queue.Close, ACK on empty queue, ACK(n>pending). Oracle per cell: executed under recover, must return a non-nil error of the documented kind (TxFinished, TxReadOnly, InvalidOp, InvalidPageID, InvalidParam, InactiveTx, UnexpectedActiveTx, ReaderClosed, WriterClosed, QueueClosed, ACKEmptyQueue, ACKTooMany; Tx.Close on a finished transaction returns nil), must not panic or block (scheduler deadlock detection), and afterwards the interrupted history continues with the full model oracle (committed state, running transaction's own reads, partition, idle locks). Non-trivial = run in which cells ran against at least three different receiver states; distinct = op list + injection points + config.",
